@@ -1,0 +1,42 @@
+//go:build verif
+// +build verif
+
+package db
+
+import "sync/atomic"
+
+// Verification hook (build tag "verif" only): crash-point injection for the LevelDB-backed
+// stores. Every physical write (Put, Delete, Batch.Write) is counted; once VerifDropFrom is
+// set to n > 0, the n-th write from the moment it was armed and every later one are silently
+// dropped, so that the disk holds exactly the first n-1 writes - the disk image of a process
+// that died at write n. The caller then discards all in-memory state and restarts the node
+// from the stores.
+var (
+	verifWrites   int64
+	verifDropFrom int64 // 0 = disarmed
+	verifDropped  int64
+)
+
+// VerifWriteCount returns the number of physical writes seen so far.
+func VerifWriteCount() int64 { return atomic.LoadInt64(&verifWrites) }
+
+// VerifArmCrash makes the n-th write from now (n >= 1) and all later writes vanish.
+func VerifArmCrash(n int64) {
+	atomic.StoreInt64(&verifDropped, 0)
+	atomic.StoreInt64(&verifDropFrom, atomic.LoadInt64(&verifWrites)+n)
+}
+
+// VerifDisarm re-enables writes and reports how many were dropped.
+func VerifDisarm() int64 {
+	atomic.StoreInt64(&verifDropFrom, 0)
+	return atomic.LoadInt64(&verifDropped)
+}
+
+func verifDropWrite() bool {
+	c := atomic.AddInt64(&verifWrites, 1)
+	if from := atomic.LoadInt64(&verifDropFrom); from > 0 && c >= from {
+		atomic.AddInt64(&verifDropped, 1)
+		return true
+	}
+	return false
+}
